@@ -337,6 +337,19 @@ class Gen:
                 if not braced:
                     inserts.append((src.toks[b_hi].end, ' }'))
                 continue
+            if needle == '@loopstub':
+                # R4c: in the enclosing function the n-th loop is replaced by a call to its summary function, whose
+                # contract is the fold of the (separately verified) body contract over the items (A-iter)
+                loops = find_loops(src, lo_tok, hi_tok)
+                if n >= len(loops):
+                    raise LostAnchor('loopstub: loop %d not found' % n)
+                kwtok, kind, hdr, bopen = loops[n]
+                # a labelled loop: include the label
+                st = kwtok
+                if src.is_p(kwtok - 1, ':') and src.toks[kwtok - 2].kind == 'lifetime':
+                    st = kwtok - 2
+                replacements.append((src.toks[st].start, src.toks[src.match[bopen]].end, txt))
+                continue
             if needle == '@tail':
                 # before the tail expression (or the closing brace) of the block [lo_tok, hi_tok]
                 k, last_semi = lo_tok + 1, None
@@ -392,7 +405,7 @@ class Gen:
         cur = contract
         for (ln, raw) in block:
             s = raw.strip()
-            if s.startswith('//@loop'):
+            if s.startswith('//@loop') and not s.startswith('//@loopstub'):
                 n = int(s.split()[1])
                 loops[n] = []
                 cur = loops[n]
@@ -401,6 +414,10 @@ class Gen:
                 entry = [int(m.group(1)), m.group(2).strip(), m.group(3).strip(), []]
                 self_closures.append(entry)
                 cur = entry[3]
+            elif s.startswith('//@loopstub'):
+                m = re.match(r'//@loopstub\s+(\d+)\s+(.*)$', s)
+                self_closures.append(['loopstub', int(m.group(1)), m.group(2)])
+                cur = []
             elif s.startswith('//@proof'):
                 m = re.match(r'//@proof\s+(\d+)\s+(.*)$', s)
                 entry = [int(m.group(1)), m.group(2), []]
@@ -411,7 +428,11 @@ class Gen:
             else:
                 cur.append(raw)
         pr = [(n, needle, '\n'.join(v)) for n, needle, v in proofs]
-        for (n, params, ret, v) in self_closures:
+        for ent in self_closures:
+            if ent[0] == 'loopstub':
+                pr.append((ent[1], '@loopstub', ent[2]))
+                continue
+            (n, params, ret, v) = ent
             pr.append((n, '@closure', (params, ret, '\n'.join(v))))
         return ('\n'.join(contract), {n: '\n'.join(v) for n, v in loops.items()}, pr)
 
